@@ -2,16 +2,17 @@ from .core import BASE_TRUST
 
 META = {
     "category": "proof",
-    "text": "Lean 4 theorems: each parallel shape of lib/query (slot-wise Run callbacks, per-worker lists concatenated in worker order for filter/join, per-worker key maps merged for GROUP BY) equals a sequential specification for EVERY cutting of the record range into contiguous chunks, hence is independent of --cpu and of the schedule; the real cutting function RecordRange is regenerated from the source and proved to tile [0,len) in order (C13's recordRange_tiles). Tied to /repo by (a) the regenerated RecordRange + a model/impl comparison of worker numbers and ranges, (b) a direct law check on the implementation: the same program run at --cpu 1,2,3,4,8,16, twice each, on tables of 80k-1/80k/80k+1 rows must give identical result rows, order and written file bytes (22+ query shapes incl. joins driven by the short and by the long table, multi-analytic queries, user-defined aggregates / functions; 6 DML programs)",
+    "text": "Lean 4 theorems: each parallel shape of lib/query (slot-wise Run callbacks, per-worker lists concatenated in worker order for filter/join, per-worker key maps merged for GROUP BY) equals a sequential specification for EVERY cutting of the record range into contiguous chunks, hence is independent of --cpu and of the schedule; the real cutting function RecordRange is regenerated from the source and proved to tile [0,len) in order (C13's recordRange_tiles); the slot bookkeeping that decides the worker number (AssignRoutineNumber, Release, Done, NewGoroutineTaskManager's literal, Flags.SetCPU) is regenerated too and proved: 1 <= n <= --cpu in every reachable state, shared count = sum of outstanding slots over every history (never negative, nothing leaks), single worker below the threshold, and end to end the assigned workers' ranges tile [0,len) (assigned_ranges_tile). Tied to /repo by (a) the regenerated definitions + a model/impl comparison of worker numbers, ranges, slot histories (new/done sequences) and SetCPU, (b) a direct law check on the implementation: the same program run at --cpu 1,2,3,4,8,16, twice each, on tables of 80k-1/80k/80k+1 rows must give identical result rows, order and written file bytes (22+ query shapes incl. joins driven by the short and by the long table, multi-analytic queries, user-defined aggregates / functions; 6 DML programs)",
     "design_ref": "DESIGN.md section 5, C12",
     "note": "trusted: Lean kernel; harness; the Go scheduler itself is outside the model, which is why the chunking/schedule is universally quantified in the theorems rather than sampled; the step from the Go closures to the three shapes is by reading (C13's extractor classifies every worker closure)",
-    "technique": "Lean 4 machine-checked proof (chunk-independence / refinement to a sequential spec) + regenerated RecordRange + multi---cpu differential runs of the real implementation",
+    "technique": "Lean 4 machine-checked proof (chunk-independence / refinement to a sequential spec) + regenerated RecordRange and slot bookkeeping + multi---cpu differential runs of the real implementation",
 }
 
 
 def run(run):
     q = run.tier == "quick"
     run.regen("recordrange", ["go", "run", "-C", "extract/parfacts", ".", "recordrange"], "Csvq/Gen/RecordRange.lean")
+    run.regen("routine", ["go", "run", "-C", "extract/parfacts", ".", "routine"], "Csvq/Gen/RoutineNumber.lean")
     run.obligations_for(["Csvq.Props.C12"])
     run.stream("c12", 300 if q else 3000, timeout=3000)
     if not q:
@@ -20,6 +21,6 @@ def run(run):
     return run.finish(
         level="proof",
         rule="record lengths 0-3000 and 80k-1/80k/80k+1 (k=1..17), cpu 1-16, minimum-per-core variants for the range stream; 17 query shapes (filter, group, distinct, order, 5 join kinds, analytic, set operators, subqueries) and 6 data-changing programs, each at 6 --cpu values x 2 runs; non-trivial = distinct (program, size band, result size) signature",
-        trusted_base=BASE_TRUST + ["extract/parfacts (RecordRange translator)"],
+        trusted_base=BASE_TRUST + ["extract/parfacts (RecordRange and slot-bookkeeping translators; int as unbounded Int, int(math.Floor(float64(a)/float64(b))) as Int.fdiv: exact below 2^53)"],
         checker_cmd="cd /verif/lean && lake build Csvq.Props.C12 && lake env lean <#print axioms for every theorem>",
     )
